@@ -119,8 +119,9 @@ CHECKS = {
         technique='Coq proofs for the grammar components (tags, integers, gate targets, perfect name hash over the generated table) + '
                   'correspondence of the real parser/printer with the intended structure, rejection rules, fuzzing under ASan',
         text='Proof: tag_roundtrip and tag_output_bounded (escape/unescape for every byte string, reader total and bounded by its input), '
-             'read_print_dec, read_write_target / read_u24_print (every target kind, 24-bit limit), table_hash_perfect (gate_name_to_hash '
-             'with multipliers regenerated from gates.h is collision-free on all names and aliases of the generated table). Tie H: '
+             'read_print_dec, read_write_target / read_u24_print (every target kind, 24-bit limit), targets_roundtrip (whole target lists: write_targets then read_arbitrary_targets_into, combiners anywhere, any length), table_hash_perfect (gate_name_to_hash '
+             'with multipliers regenerated from gates.h is collision-free on all names and aliases of the generated table). Tie H: the extracted target-list reader/printer against the real '
+             'ones on lists with irregular spacing, comments and malformations (accept/reject and parsed values must agree); '
              'structured circuits over every gate of the table with aliases, mixed case, whitespace, comments, CRLF, 63-bit repeat '
              'counts, escaped tags and fusable neighbours through the string/file/stop_asap entry points must parse to the intended '
              'structure, print, re-parse equal to six digits and then round trip exactly; API-built circuits with arbitrary tag bytes '
